@@ -154,6 +154,15 @@ Proof.
     unfold sk_from_bech32. rewrite D. reflexivity.
 Qed.
 
+(* PrivateKey::from_bech32 rejects every text encoded under a human-readable part other than its two own *)
+Lemma sk_hrp_checked h bs s :
+  law_bech32_roundtrip P -> hrp_valid h = true -> bytes_ok bs -> h <> hrp_ed25519_sk -> h <> hrp_ed25519e_sk ->
+  b32_encode P h (b32_to_base32 P bs) = Some s -> sk_from_bech32 P s = Err.
+Proof.
+  intros L2 Hh Hb N1 N2 E. unfold sk_from_bech32.
+  rewrite (kt_hrp_checked T_sk_ext h bs s L2 Hh Hb N2 E), (kt_hrp_checked T_sk_normal h bs s L2 Hh Hb N1 E). reflexivity.
+Qed.
+
 (* ================= 128-byte form ================= *)
 Definition xprv_valid (k : bytes) : Prop := wfb 96 k /\ xprv_bits_ok k = true.
 
